@@ -84,6 +84,15 @@ func buildGenesis(fork bool) *engine.World {
 				return err
 			}
 		}
+		// an open storage challenge for the blobber with six validators (fixed BLS keys, so that every process builds the same state)
+		ch := &storagesc.StorageChallenge{Created: 1700000000, ID: challengeID, TotalValidators: len(validatorKeys), AllocationID: "verif-alloc-1",
+			BlobberID: clientOf("blobber").ID, RoundCreatedAt: 1}
+		for i := range validatorKeys {
+			ch.ValidatorIDs = append(ch.ValidatorIDs, validatorOf(i).id)
+		}
+		if err := ch.Save(sctx, storagesc.ADDRESS); err != nil {
+			return err
+		}
 		if fork {
 			for _, n := range []string{"demeter", "electra"} {
 				if _, err := sctx.InsertTrieNode(cstate.NewHardFork(n, 0).GetKey(), cstate.NewHardFork(n, 0)); err != nil {
@@ -113,6 +122,91 @@ func unesc(s string) string {
 		b.WriteByte(s[i])
 	}
 	return b.String()
+}
+
+const challengeID = "verif-challenge-1"
+
+// fixed BLS key pairs (public key line, private key line), generated once with BLS0ChainScheme.GenerateKeys/WriteKeys
+var validatorKeys = []string{
+	"a69442c1120a4d500400215434b914a930b9a013ee43b4109f74d5588fbf932216f9f57544e3747619f199dcd1cea5239a2238414fcffab57a9b0f1ec5cb3e8d\nea3845af59d3968ebd3be0c15408ec8bb783afd31c74446ad6100cc862b99a09\n",
+	"4cfc5f7b5f0c97a42c6735dff513280afcbf124a0ebbc7f3ed13c5cb6a220c17fef73879e87db2f356da7a5ca086e39498fe1cb380640d44ef5e37cd302f8d8c\ne378482bb0826a99503c2ec7ec0e763b5e428a844341778e9862e02c080a6820\n",
+	"b9274cb05a6b3ff7b05dc8f80e72282ffe62802504ab6c409bdd397a298351186964ab3caecb01f77cf81df8a3f5ec342aea5642b41edd0371cd57edefc32a0c\na9118e20847ec01ee248a67f6eb86bad623d8a4d0e62ecc3ed9af7fc5c5c4510\n",
+	"5f59bd9d8c990bfebfca4abadc4b3e759cad79013f99a7b72453d38aa21fd80e19d8258de290f4a92aad4120f783be80571ea2bf771c6b9cc8dca1f5e217be19\nbedf562e2e71fcb8ba50e9c0cb5aefb56bd5526728cfa70c3a76264369067013\n",
+	"0dddaaa82ad8f48bd129ab97b3078bbfb4dc899d5cdc859fab44c848436f200d65cb66cd2163a49f6f008dd57de9ffc156cfe564e2bf5ee9b9023345106f270d\n18de47136dd65fb336a94ab0d7381db580b46f677ed8984e749f328a4743d305\n",
+	"356de117dc19212ef3131411e5a8886a9d0769f8b0d446f0e7a74c289dacaf00c366264f009fcd59a8f3e2f8ded111da0dca782d21228fb449f2f4e963972b83\n0d28c46637bc2c098448ed354f13fb8a6c38b279749598d2b2473a6eda666107\n",
+}
+
+type validator struct {
+	scheme *encryption.BLS0ChainScheme
+	id, pk string
+}
+
+var (
+	validators    []*validator
+	validatorOnce sync.Once
+)
+
+func validatorOf(i int) *validator {
+	validatorOnce.Do(func() {
+		for _, k := range validatorKeys {
+			s := encryption.NewBLS0ChainScheme()
+			if err := s.ReadKeys(strings.NewReader(k)); err != nil {
+				panic(err)
+			}
+			pkb, err := hex.DecodeString(s.GetPublicKey())
+			if err != nil {
+				panic(err)
+			}
+			validators = append(validators, &validator{scheme: s, id: encryption.Hash(pkb), pk: s.GetPublicKey()})
+		}
+	})
+	return validators[i]
+}
+
+// challengeResponse builds the input of storagesc challenge_response: one ticket per letter of the variant
+// (g good and correctly signed, c issued for another challenge id, b for another blobber id, s signature of another validator,
+// k public key of another validator).
+func challengeResponse(variant string) string {
+	blobber := clientOf("blobber").ID
+	type ticket struct {
+		ChallengeID  string `json:"challenge_id"`
+		BlobberID    string `json:"blobber_id"`
+		ValidatorID  string `json:"validator_id"`
+		ValidatorKey string `json:"validator_key"`
+		Result       bool   `json:"success"`
+		Message      string `json:"message"`
+		MessageCode  string `json:"message_code"`
+		Timestamp    int64  `json:"timestamp"`
+		Signature    string `json:"signature"`
+	}
+	var tickets []*ticket
+	for i, c := range variant {
+		if i >= len(validatorKeys) {
+			break
+		}
+		v := validatorOf(i)
+		t := &ticket{ChallengeID: challengeID, BlobberID: blobber, ValidatorID: v.id, ValidatorKey: v.pk, Result: true, Timestamp: 1700000100}
+		signer := v
+		switch c {
+		case 'c':
+			t.ChallengeID = "verif-challenge-2"
+		case 'b':
+			t.BlobberID = clientOf("alice").ID
+		case 's':
+			signer = validatorOf((i + 1) % len(validatorKeys))
+		case 'k':
+			t.ValidatorKey = validatorOf((i + 1) % len(validatorKeys)).pk
+		}
+		h := encryption.Hash(fmt.Sprintf("%v:%v:%v:%v:%v:%v", t.ChallengeID, t.BlobberID, t.ValidatorID, t.ValidatorKey, t.Result, t.Timestamp))
+		sig, err := signer.scheme.Sign(h)
+		if err != nil {
+			panic(err)
+		}
+		t.Signature = sig
+		tickets = append(tickets, t)
+	}
+	b, _ := json.Marshal(map[string]interface{}{"challenge_id": challengeID, "validation_tickets": tickets})
+	return string(b)
 }
 
 type contractRef struct{ addr, fn string }
@@ -165,6 +259,19 @@ func (tb *txnBuilder) build(line string) (*transaction.Transaction, error) {
 		fmt.Sscan(f[2], &v)
 		in := fmt.Sprintf(`{"provider_type":3,"provider_id":%q}`, blobber.ID)
 		return mk(f[1], storagesc.ADDRESS, currency.Coin(v)*1e10, transaction.TxnTypeSmartContract, "stake_pool_lock", in), nil
+	case f[0] == "chalresp" && len(f) == 2:
+		return mk("blobber", storagesc.ADDRESS, 0, transaction.TxnTypeSmartContract, "challenge_response", challengeResponse(f[1])), nil
+	case f[0] == "newalloc" && len(f) >= 2:
+		// new_allocation_request naming the given blobbers (state.GetItemsByIDs reads them concurrently); unknown names are absent ids
+		var ids, tix []string
+		for _, n := range f[1:] {
+			ids = append(ids, fmt.Sprintf("%q", clientOf(n).ID))
+			tix = append(tix, `""`)
+		}
+		owner := clientOf("alice")
+		in := fmt.Sprintf(`{"data_shards":1,"parity_shards":%d,"size":1073741824,"owner_id":%q,"owner_public_key":%q,"blobbers":[%s],"blobber_auth_tickets":[%s],"read_price_range":{"min":0,"max":100000000000},"write_price_range":{"min":0,"max":100000000000}}`,
+			len(ids)-1, owner.ID, owner.PublicKey, strings.Join(ids, ","), strings.Join(tix, ","))
+		return mk("alice", storagesc.ADDRESS, 10e10, transaction.TxnTypeSmartContract, "new_allocation_request", in), nil
 	case f[0] == "unlock" && len(f) == 2:
 		in := fmt.Sprintf(`{"provider_type":3,"provider_id":%q}`, blobber.ID)
 		return mk(f[1], storagesc.ADDRESS, 0, transaction.TxnTypeSmartContract, "stake_pool_unlock", in), nil
